@@ -279,8 +279,8 @@ def run(ctx):
     import pymoto as pym
     ctx.rule = ('active set: EXHAUSTIVE over n = 1..12 (thorough 1..16) x all pairs lower_amt < upper_amt of a 28-value fraction grid '
                 '(0, .05, ..., 1, .01, .99, 1/3, 2/3, .29, .57, .58) x vector families (distinct values, ties; thorough also two-valued, '
-                'descending), plus all pairs lower_rel < upper_rel of a 10-value grid (incl. values outside [0,1]) x 4 count settings; '
-                'counts alone for n = 2..100 (thorough 2..400) x every fraction; a case is non-trivial when the result is a mask; distinct by '
+                'descending), plus all pairs lower_rel < upper_rel of a 10-value grid (incl. values outside [0,1]) x 3 (4) count settings; '
+                'counts alone for n = 2..64 (thorough 2..400) x every fraction; a case is non-trivial when the result is a mask; distinct by '
                 '(vector, configuration).  Aggregations: PNorm/KS/SoftMinMax x parameters of both signs x n in 1..12 positive data, '
                 'each an `interval` goal |model_R - impl| <= 1e-9*scale.  AggScaling: sequences of 1..6 calls; Aggregation pipeline: '
                 'histories of 1..6 response() calls with scaling/active set, exact Q on the float values')
@@ -383,6 +383,8 @@ def run(ctx):
     rel_pairs = [(a, b) for a in range(len(REL)) for b in range(len(REL)) if REL[a] < REL[b]]
     amt_few = [(AMT.index(0.0), AMT.index(1.0)), (AMT.index(0.25), AMT.index(0.75)), (AMT.index(0.1), AMT.index(0.9)),
                (AMT.index(1 / 3), AMT.index(0.95))]
+    if ctx.quick():
+        amt_few = amt_few[:3]
 
     def grid_case(v, lr, ur, la, ua):
         kind, x = vecs[v]
@@ -404,13 +406,13 @@ def run(ctx):
             for la, ua in amt_few:
                 grid_case(v, lr, ur, la, ua)
         # a few random mixed configurations
-        for _ in range(12):
+        for _ in range(8 if ctx.quick() else 12):
             lr, ur = rel_pairs[int(rng.integers(len(rel_pairs)))]
             la, ua = amt_pairs[int(rng.integers(len(amt_pairs)))]
             grid_case(v, lr, ur, la, ua)
 
     # ---- counts alone, larger n
-    ncount = 100 if ctx.quick() else 400
+    ncount = 64 if ctx.quick() else 400
     for n in range(2, ncount + 1):
         x = np.arange(n, dtype=float)
         for a in range(len(AMT)):
